@@ -37,6 +37,7 @@ class PEval:
         self.calls = sink if sink is not None else []      # (name, [values], node, func key)
         self.returns = []
         self.return_envs = []       # the environment at each `return` reached, parallel to returns
+        self.attr_stores = []       # (target text, value node, statement) of the attribute assignments reached
 
     # ------------------------------------------------------------------ expressions
     def ev(self, e, env):
@@ -252,6 +253,9 @@ class PEval:
         if isinstance(s, ast.Assign):
             v = self.ev(s.value, env)
             env = dict(env)
+            for t in s.targets:
+                if isinstance(t, ast.Attribute):
+                    self.attr_stores.append((ast.unparse(t), s.value, s))     # which attribute stores the known values let through
             for t in s.targets:
                 if isinstance(t, ast.Name):
                     env[t.id] = v
